@@ -296,9 +296,6 @@ func (vc *VC) execFunc(fn *ssa.Function, c *Contract, args []Val, bindings []Val
 	if vc.depth > 6 {
 		unsup("inlining too deep at %s", fn)
 	}
-	if fn.Recover != nil {
-		unsup("function %s uses recover", fn)
-	}
 	f := &frame{vc: vc, fn: fn, c: c, isTop: isTop, decr: map[*vnode]*Term{}, cutSt: map[*vnode]*State{}}
 	f.loops, f.hdr = findLoops(fn, c)
 	for _, l := range f.loops {
